@@ -1,0 +1,14 @@
+//go:build verif
+
+package cache
+
+// Contracts for the deductive checker in /verif (comment-only file, no declarations).
+// The otter backend is a dependency: MemoryCache.Store/Get are assumptions for their callers.
+
+//@ func (c *MemoryCache) Store(k []byte, storedTime time.Time, expireTime time.Time, v []byte, setNX bool)
+//@   trusted
+//@   requires c != nil
+//@   modifies nothing
+//@ func (c *RedisCache) AsyncStore(k []byte, storedTime time.Time, expireTime time.Time, v []byte, setNX bool)
+//@   trusted
+//@   modifies nothing
